@@ -239,6 +239,15 @@ Vars(c) ==
            \cup Pre("line1.", {V(v.l, NLines(c, (IF c.max >= 2 /\ c.cls # "single" THEN 2 ELSE 1), v.s)) : v \in VarsSeq(c.body, 1)})
            \cup {V("trailing-nl", t \o <<"\n">>), V("blank-middle", t \o <<"\n", "\n">> \o t),
                  V("blank-first", <<"\n">> \o t), V("no-line", <<>>)}
+           \* the LAST of the maximal number of lines at and beyond its own limits (a check that stops one
+           \* line early, or looks at the first line only, shows here)
+           \cup (IF c.max >= 2 /\ c.cls # "single" /\ Len(c.body) = 1 /\ c.body[1].k = "cls"
+                 THEN LET b == c.body[1]
+                          pre == NLines(c, c.max - 1, t) \o <<"\n">>
+                      IN {V("lastline.max", pre \o Run(b.cls, b.max)),
+                          V("lastline.max+1", pre \o Run(b.cls, b.max + 1)),
+                          V("lastline.last=~", pre \o WithLast(Run(b.cls, TypLen(b)), "~"))}
+                 ELSE {})
 
 (* all contents with at most b deviating components *)
 GenSeq(cs, k, b) ==
